@@ -78,6 +78,7 @@ struct FbStat {
     // [no growth, growth inside the chunk, relocated into another chunk]
     loanf: [usize; 3],
     send: [usize; 3],
+    fit: usize,
     max_capacity: usize,
 }
 
@@ -94,6 +95,8 @@ struct FbWorld<S: Service> {
     max_borrow: usize,
     pub_labels: std::collections::HashSet<usize>,
     sub_labels: std::collections::HashSet<usize>,
+    /// largest number of entries a loan of this publisher was built with so far (a loan with at most that many never grows)
+    kmax: HashMap<usize, usize>,
     stat: FbStat,
 }
 
@@ -101,7 +104,7 @@ impl<S: Service> Drop for FbWorld<S> {
     fn drop(&mut self) {
         if std::env::var("VERIF_FBSTAT").is_ok() {
             let (a, b) = (&self.stat.loanf, &self.stat.send);
-            eprintln!("# fbstat loanf none={} inplace={} reloc={} send none={} inplace={} reloc={} maxcap={}", a[0], a[1], a[2], b[0], b[1], b[2], self.stat.max_capacity);
+            eprintln!("# fbstat loanf none={} inplace={} reloc={} fit={} send none={} inplace={} reloc={} maxcap={}", a[0], a[1], a[2], self.stat.fit, b[0], b[1], b[2], self.stat.max_capacity);
         }
     }
 }
@@ -198,7 +201,7 @@ fn mk_fb<S: Service>(t: &[&str]) -> Result<FbWorld<S>, String> {
         .create()
         .map_err(|e| format!("err:service:{e:?}"))?;
     let node_dir = format!("{}", node.id().value());
-    Ok(FbWorld { node: Some(node), service: Some(service), prefix, node_dir, pubs: HashMap::new(), subs: HashMap::new(), loans: HashMap::new(), samples: HashMap::new(), pub_ids: HashMap::new(), max_borrow: n(t[6]).max(1), pub_labels: Default::default(), sub_labels: Default::default(), stat: Default::default() })
+    Ok(FbWorld { node: Some(node), service: Some(service), prefix, node_dir, pubs: HashMap::new(), subs: HashMap::new(), loans: HashMap::new(), samples: HashMap::new(), pub_ids: HashMap::new(), max_borrow: n(t[6]).max(1), pub_labels: Default::default(), sub_labels: Default::default(), kmax: HashMap::new(), stat: Default::default() })
 }
 
 /// start address and capacity of the memory the flatbuffer builder of a loan currently writes to
@@ -212,6 +215,8 @@ fn fb_class(before: (usize, usize), after: (usize, usize)) -> usize {
 }
 
 const FB_TITLE_PAD: usize = 8;
+/// initial reserved memory of every publisher: a sample with one entry just fits (it never grows), more entries grow
+const FB_INITIAL_RESERVE: usize = 80;
 
 /// data_1 of entry i is i + 1: no field of an entry has its default value (tags are >= 1).  A field with the default value
 /// is omitted by the flatbuffer builder, its vtable slot is expected to be zero already — which the loaned memory does not
@@ -506,7 +511,7 @@ fn exec_fb<S: Service + 'static>(w: &mut FbWorld<S>, t: &[&str]) -> String {
             // cpub <p> <max_loans>
             if w.pub_labels.contains(&n(t[1])) { "dup".to_string() } else {
             if w.service.is_none() { return "no-service".to_string(); }
-            match w.service.as_ref().unwrap().publisher_builder().max_loaned_samples(n(t[2])).backpressure_strategy(BackpressureStrategy::DiscardData).initial_reserved_memory(1).allocation_strategy(iceoryx2_bb_elementary::allocation_strategy::AllocationStrategy::PowerOfTwo).create() {
+            match w.service.as_ref().unwrap().publisher_builder().max_loaned_samples(n(t[2])).backpressure_strategy(BackpressureStrategy::DiscardData).initial_reserved_memory(FB_INITIAL_RESERVE).allocation_strategy(iceoryx2_bb_elementary::allocation_strategy::AllocationStrategy::PowerOfTwo).create() {
                 Ok(p) => {
                     w.pub_ids.insert(p.id().value(), n(t[1]));
                     w.pub_labels.insert(n(t[1]));
@@ -537,10 +542,15 @@ fn exec_fb<S: Service + 'static>(w: &mut FbWorld<S>, t: &[&str]) -> String {
             Some(_) if w.loans.contains_key(&(n(t[1]), n(t[2]))) => "dup".into(),
             Some(p) => match p.loan_flatbuffer() {
                 Ok(mut s) => {
-                    let k = if t.len() > 3 { n(t[3]).max(1) } else { 1 };
+                    let mut k = if t.len() > 3 { n(t[3]).max(1) } else { 1 };
                     let late = t.len() > 4 && t[4] == "late";
+                    // `fit`: this loan must not grow (see `generate`): not more entries than the publisher's chunks hold already
+                    let fit = t.len() > 4 && t[4] == "fit";
+                    let kmax = w.kmax.entry(n(t[1])).or_insert(0);
+                    if fit { k = k.min((*kmax).max(1)); w.stat.fit += 1; }
+                    *kmax = (*kmax).max(k);
                     let before = fb_place(&mut s);
-                    let title = s.flatbuffer_builder().create_string(&format!("L{}:{}", t[2], "x".repeat(k * FB_TITLE_PAD)));
+                    let title = s.flatbuffer_builder().create_string(&format!("L{:06}:{}", n(t[2]), "x".repeat(k * FB_TITLE_PAD)));
                     if late {
                         let after = fb_place(&mut s);
                         w.stat.loanf[fb_class(before, after)] += 1;
@@ -555,6 +565,7 @@ fn exec_fb<S: Service + 'static>(w: &mut FbWorld<S>, t: &[&str]) -> String {
                         // `finish` may grow once more: the final place of the payload area is taken from the finished sample
                         let base = s.payload_bytes().as_ptr() as usize - s.header().payload_offset() as usize;
                         w.stat.loanf[fb_class(before, (base, mid.1))] += 1;
+                        if fit && fb_class(before, (base, mid.1)) != 0 { eprintln!("# fb: a `fit` loan grew ({})", t.join(" ")); }
                         w.stat.max_capacity = w.stat.max_capacity.max(mid.1);
                         match fb_tag_positions(s.payload_bytes()) {
                             Some(tag_positions) => { w.loans.insert((n(t[1]), n(t[2])), FbLoan::Ready { s, tag_positions }); "ok".into() }
@@ -763,29 +774,47 @@ pub fn generate(a: &Args) -> Vec<Vec<String>> {
         return cases;
     }
     if a.rest.iter().any(|x| x == "fb") && a.exhaustive == 0 && !a.rest.iter().any(|x| x == "shutdown") {
-        // flatbuffer payloads (dynamic data segment, PowerOfTwo, initial reserved memory 1): the same histories, every loan
+        // flatbuffer payloads (dynamic data segment, PowerOfTwo, initial reserved memory = one entry): the same histories, every loan
         // with a number of entries; the builder outgrows its chunk while the sample is loaned (Sender::grow), numbers
         // mostly grow so that the loan is relocated into a new segment while other samples are loaned / in flight / held
         let mut a2 = Args { mode: a.mode.clone(), seed: a.seed ^ 0xfb, cases: a.cases, len: a.len, exhaustive: 0, rest: a.rest.iter().filter(|x| *x != "fb").cloned().collect() };
-        // `late`: the entries are written by `send` (the loan grows a second time, possibly after the publisher moved on to
-        // a newer segment); `keep-dpub`: publishers are dropped as in the base histories.  Both for experiments only.
-        a2.rest.retain(|x| x != "keep-dpub" && x != "late");
+        // experiments only — `late`: the entries are written by `send` (the loan grows a second time, possibly after the
+        // publisher moved on to a newer segment); `keep-dpub`: publishers are dropped as in the base histories; `overtake`:
+        // no `fit` marks (below)
+        a2.rest.retain(|x| x != "keep-dpub" && x != "late" && x != "overtake");
         let keep_dpub = a.rest.iter().any(|x| x == "keep-dpub");
-        let late = if a.rest.iter().any(|x| x == "late") { " late" } else { "" };
+        let late = a.rest.iter().any(|x| x == "late");
+        let overtake = a.rest.iter().any(|x| x == "overtake");
         let mut rng = Rng::new(a.seed ^ 0xf1a7b);
         let mut cases = generate(&a2);
         for c in cases.iter_mut() {
+            // a publisher with a dynamic segment that goes away takes its not yet mapped segments with it: the receiver
+            // then reports a lost chunk (documented limitation, outside the model; observed here as in slice mode)
             if !keep_dpub { c.retain(|l| !l.starts_with("dpub ")); }
             let mut cur = 1u64;
-            for l in c.iter_mut() {
+            for i in 0..c.len() {
+                let l = c[i].clone();
                 if l.starts_with("new ") {
                     let t: Vec<&str> = l.split(' ').collect();
-                    *l = format!("new {}-fb {}", t[1], t[2..].join(" "));
+                    c[i] = format!("new {}-fb {}", t[1], t[2..].join(" "));
                     cur = 1;
                 } else if l.starts_with("loan ") {
                     if rng.chance(35) { cur = (cur * 2).min(64); }
                     let k = if rng.chance(70) { cur } else { rng.range(1, cur) };
-                    *l = format!("loanf {} {k}{late}", &l[5..]);
+                    // a loan that is still open when a LATER loan of the same publisher is sent must not grow (`fit`): a grown
+                    // sample reports a chunk size that is larger (by the header length) than that of the other samples of its
+                    // segment; sent after one of those it breaks the per-segment chunk index of the connection (finding,
+                    // see DESIGN.md) — sends in loan order are safe, a grown loan is always the first chunk of a new segment
+                    let t: Vec<&str> = l.split(' ').collect();
+                    let (p, id) = (t[1], t[2].parse::<usize>().unwrap());
+                    let mut overtaken = false;
+                    for m in c[i + 1..].iter() {
+                        let u: Vec<&str> = m.split(' ').collect();
+                        if (u[0] == "send" || u[0] == "dloan") && u[1] == p && u[2] == t[2] { break; }
+                        if u[0] == "send" && u[1] == p && u[2].parse::<usize>().map(|x| x > id).unwrap_or(false) { overtaken = true; break; }
+                    }
+                    let mark = if late { " late" } else if overtaken && !overtake { " fit" } else { "" };
+                    c[i] = format!("loanf {} {k}{mark}", &l[5..]);
                 }
             }
         }
